@@ -15,6 +15,15 @@ def indent(val: str, spaces=4) -> str:
     return ' ' * spaces + val.replace('\n', '\n' + ' ' * spaces)
 
 
+def indent_lines(text: str, prefix: str) -> str:
+    """
+    Like textwrap.indent, but only a line feed separates lines. textwrap splits on every
+    Unicode line boundary (U+0085, U+2028, form feed, ...) and so inserts the prefix in
+    the middle of names and texts that contain one.
+    """
+    return '\n'.join(prefix + line if line.strip() else line for line in text.split('\n'))
+
+
 def remove_bom(source: str) -> str:
     if source and source[0] == '\ufeff':
         source = source[1:]
